@@ -78,6 +78,32 @@ def r1_set_stale(c, facts):
             c.bad(R, '%s:called-outside-notification-closures' % m, '%s is called from %s: a mutation outside the staleness protocol' % (m, sorted(callers - hq)))
 
 
+def r15_initially_stale(c, facts, rule='C15.R15'):
+    """a server that has seen no notification yet owes the client the diagnostics of what is on disk and answers requests
+    about it: the state is born stale, so the first refresh evaluates the folders - exactly what a server that went
+    through an open and a close of some document and ended with the same texts does"""
+    R = c.rule(rule, 'INITIALLY-STALE: every construction of the server state sets is_stale to the constant true')
+    n = 0
+    for fn in sorted(facts.fns.values(), key=lambda f: f.qname):
+        if not fn.mir or not (fn.crate in ('oal_lsp', 'oal_client')):
+            continue
+        for b, blk in fn.blocks():
+            for st in blk['stmts']:
+                if st['s'] == 'assign' and st['rv']['r'] == 'aggr' and st['rv'].get('adt', '').endswith('state::GlobalState'):
+                    n += 1
+                    fields = st['rv'].get('fields') or []
+                    ops = st['rv']['ops']
+                    op = ops[fields.index('is_stale')] if 'is_stale' in fields and len(ops) == len(fields) else None
+                    inst = {'fn': fn.qname, 'is_stale': (op or {}).get('d') if op and op.get('o') == 'const' else 'computed'}
+                    if op is not None and op.get('o') == 'const' and op.get('val') == '1':
+                        c.ok(R, inst)
+                    elif op is not None and op.get('o') == 'const':
+                        c.bad(R, 'state-born-fresh:' + fn.qname.split('::')[-1], '%s builds the server state with is_stale = false: refresh() returns before evaluating anything until a document notification arrives, so a server started on a workspace with an error on disk publishes nothing and answers requests with nothing' % fn.qname, **inst)
+                    else:
+                        c.skip(R, fn.qname, 'is_stale initialised from a computed value')
+    c.floor(R, 'constructions of GlobalState', n, 1)
+
+
 def r2_refresh_first(c, facts):
     R = c.rule('C15.R2', 'REFRESH-FIRST: refresh() before every request; refresh re-evaluates everything on the stale path only')
     ml = c.anchor(R, 'oal_lsp::main_loop')
@@ -582,6 +608,11 @@ def run(c, facts):
     c.run(lambda c: _c11.loader_text(c, facts, R9))
     import c18
     c.run(lambda c: c18.r7_no_reject(c, facts, rule='C15.R8'))
+    import c06 as _c06
+    import common as _C
+    R14 = c.rule('C15.R14', 'ORDER-FREE: which module is compiled first, and so whose error is published, does not depend on the iteration order of a hashed collection - two servers given the same texts publish the same diagnostics (shared with C06.R1)')
+    c.shared(R14, lambda c, facts: _c06.r1_order_leak(c, facts, _C.pipeline(facts)[0]), 'C06.R1', facts)
+    c.run(r15_initially_stale, facts)
     c.run(r6_doc_sync, facts)
     c.run(r1_set_stale, facts)
     c.run(r2_refresh_first, facts)
